@@ -570,7 +570,53 @@ fn rec_decode(out: &mut Out, ud: bool, txid: &[u8; 12], ty: u16, val: &[u8]) {
             } else {
                 out.imp(&format!("OK count={}", v.len()));
             }
+            // C19: every public accessor of a DECODED value (whatever the wire bytes were), of its clone, and its Debug
+            // rendering must return without panicking
+            let touched = guarded(|| for a in &v { touch(a); touch(&a.clone()) }).is_ok();
+            out.rec(&format!("J touch={}", if touched { "ok" } else { "P" }));
         }
+    }
+}
+
+/// call every public accessor of the attribute
+pub fn touch(a: &StunAttribute) {
+    let _ = (a.attribute_type().as_u16(), format!("{:?}", a));
+    match a {
+        StunAttribute::ChangeRequest(x) => { let _ = x.flags(); }
+        StunAttribute::Nonce(x) => { let _ = (x.as_str().len(), x.is_nonce_cookie(), x.security_features().is_ok()); }
+        StunAttribute::Realm(x) => { let _ = x.as_str().len(); }
+        StunAttribute::Software(x) => { let _ = x.as_str().len(); }
+        StunAttribute::Padding(x) => { let _ = x.as_str().len(); }
+        StunAttribute::UserName(x) => { let _ = x.as_str().len(); }
+        StunAttribute::UserHash(x) => { let _ = x.hash().len(); }
+        StunAttribute::ErrorCode(x) => { let e = x.error_code(); let _ = (e.error_code(), e.class(), e.number(), e.reason().len()); }
+        StunAttribute::AddressErrorCode(x) => { let e = x.error_code(); let _ = (x.family(), e.error_code(), e.class(), e.number(), e.reason().len()); }
+        StunAttribute::PasswordAlgorithm(x) => { let _ = (x.algorithm(), x.parameters().map(|p| p.len())); }
+        StunAttribute::PasswordAlgorithms(x) => { let _ = (x.iter().count(), x.password_algorithms().len(), x.clone().into_iter().count()); for p in x.iter() { let _ = (p.algorithm(), p.parameters().map(|q| q.len())); } }
+        StunAttribute::UnknownAttributes(x) => { let _ = (x.iter().count(), x.attributes().len()); }
+        StunAttribute::Unknown(x) => { let _ = (x.attribute_type(), x.attribute_data().map(|d| d.len())); }
+        StunAttribute::Icmp(x) => { let _ = (x.icmp_type(), x.icmp_code(), x.error_data().len()); }
+        StunAttribute::EvenPort(x) => { let _ = x.reserve(); }
+        StunAttribute::RequestedTrasport(x) => { let _ = x.protocol().as_u8(); }
+        StunAttribute::ChannelNumber(x) => { let _ = x.number(); }
+        StunAttribute::RequestedAddressFamily(x) => { let _ = x.family(); }
+        StunAttribute::AdditionalAddressFamily(x) => { let _ = x.family(); }
+        StunAttribute::MappedAddress(x) => { let _ = x.socket_address(); }
+        StunAttribute::AlternateServer(x) => { let _ = x.socket_address(); }
+        StunAttribute::ResponseOrigin(x) => { let _ = x.socket_address(); }
+        StunAttribute::OtherAddress(x) => { let _ = x.socket_address(); }
+        StunAttribute::XorMappedAddress(x) => { let _ = x.socket_address(); }
+        StunAttribute::XorPeerAddress(x) => { let _ = x.socket_address(); }
+        StunAttribute::XorRelayedAddress(x) => { let _ = x.socket_address(); }
+        StunAttribute::ResponsePort(x) => { let _ = x.as_u16(); }
+        StunAttribute::LifeTime(x) => { let _ = x.as_u32(); }
+        StunAttribute::Priority(x) => { let _ = x.as_u32(); }
+        StunAttribute::IceControlled(x) => { let _ = x.as_u64(); }
+        StunAttribute::IceControlling(x) => { let _ = x.as_u64(); }
+        StunAttribute::ReservationToken(x) => { let _ = x.token(); }
+        StunAttribute::Data(x) => { let _ = x.as_bytes().len(); }
+        StunAttribute::MobilityTicket(x) => { let _ = x.value().len(); }
+        _ => {}
     }
 }
 
